@@ -408,7 +408,7 @@ Proof.
     { unfold owned_parts. cbn [c_len c_cap c_ptr]. rewrite kind_shared.
       change (len (r_data x)) with (len (r_data x1)). rewrite (read_arc s1 r x1 E1x eq_refl). cbn [bind]. change (r_data x1) with (r_data x). rewrite T.
       assert (E2x : nth_error (arcs s2) r = Some x1) by (rewrite Xa; exact E1x).
-      rewrite (arc_release_ok tr s2 r x1 E2x eq_refl). cbn [bind]. unfold x1 at 1 2 3. cbn [r_strong r_data r_caller].
+      rewrite (arc_release_ok tr s2 r x1 E2x eq_refl). cbn [bind]. unfold x1. cbn [r_strong r_data r_caller].
       destruct (N.eqb_spec (r_strong x + 1) 1); [lia|].
       rewrite Xa. unfold s1; cbn [arcs]. rewrite upd_upd.
       replace (mkarc (r_data x) (r_strong x + 1 - 1) (r_caller x) false) with x.
@@ -423,4 +423,45 @@ Proof.
   intros H. split; cbn [step sstep].
   - destruct (get m h); auto. rewrite H. reflexivity.
   - destruct (sget s h); auto. rewrite H. reflexivity.
+Qed.
+
+Lemma sim_WithExtra tr m s h extra : Rst m s -> sim tr m s (WithExtra h extra).
+Proof.
+  intros HR. destruct (N.eqb_spec (len extra) 0) as [Z|Z].
+  { pose proof (sim_Clone tr m s h HR) as Q. unfold sim in *. destruct (with_extra_nil tr m s h extra Z) as [-> ->]. exact Q. }
+  unfold sim. cbn [step sstep]. rewrite get_nth, sget_nth.
+  destruct (handle_cases m s h HR) as [[E1 E2]|(c & d & o & E1 & E2 & Hh)]; rewrite E1, E2.
+  { four. }
+  destruct (N.eqb_spec (len extra) 0); [contradiction|].
+  destruct (hrel_inv _ _ _ _ _ Hh) as (Hd & _).
+  destruct (clone_owned tr m s h c d o HR E1 E2 Hh) as (t & s1 & v & m2 & Hcl & Hown & X).
+  rewrite Hcl. cbn [bind fin]. rewrite Hown. cbn [bind fin fst snd].
+  destruct m2 as [al2 ar2 st2 na2 ne2]. destruct X as (Xa & Xs & Xe & Xd). cbn [arcs store nelem allocs nalloc] in *. subst ar2 st2 ne2.
+  destruct Xd as [(-> & -> & -> & ->)|(Zd & -> & -> & ->)]; cbn [c_len c_cap c_ptr].
+  - (* the exact-size copy of an empty content has no buffer *)
+    change (len []) with 0 in *. rewrite N.add_0_l.
+    destruct (N.ltb_spec ISZ (len extra)).
+    + unfold drop_vec. cbn [c_cap bind fin]. change (0 =? 0) with true. cbn [bind fin]. rewrite ec_0. four.
+    + unfold vec_extend. rewrite read_dangling. cbn [bind c_len c_cap c_ptr]. rewrite N.add_0_l.
+      destruct (N.leb_spec (len extra) 0); [lia|]. change (0 =? 0) with true. cbn [bind].
+      unfold alloc_buf. destruct (N.eqb_spec (grow tr 0 (len extra)) 0) as [G|G]; [exfalso; apply (grow_pos _ _ _ G)|].
+      cbn [bind c_cap allocs arcs store nalloc nelem add_elems]. rewrite grow_not_max. cbn [fin fst snd].
+      rewrite ec_0. four.
+      unfold Rst; ev0. change (len extra) with (len ([] ++ extra)).
+      apply R_push_owned; auto; try apply grow_le; try (simpl; exact H).
+  - destruct (N.ltb_spec ISZ (len d + len extra)).
+    + unfold drop_vec, free_vec. cbn [c_cap c_ptr c_len bind fin]. destruct (N.eqb_spec (len d) 0); [contradiction|].
+      erewrite free_buf_ok by (cbn [allocs]; rewrite nth_error_app2, Nat.sub_diag; auto; reflexivity).
+      cbn [bind fin allocs arcs store nalloc nelem add_elems]. rewrite upd_app_last. four.
+      unfold Rst; ev0. apply R_dead_alloc. exact HR.
+    + unfold vec_extend.
+      erewrite read_heap by (cbn [allocs]; rewrite nth_error_app2, Nat.sub_diag; auto; reflexivity).
+      cbn [bind c_len c_cap c_ptr].
+      destruct (N.leb_spec (len d + len extra) (len d)); [lia|]. destruct (N.eqb_spec (len d) 0); [contradiction|].
+      erewrite free_buf_ok by (cbn [allocs]; rewrite nth_error_app2, Nat.sub_diag; auto; reflexivity).
+      cbn [bind allocs arcs store nalloc nelem]. rewrite upd_app_last.
+      unfold alloc_buf. destruct (N.eqb_spec (grow tr (len d) (len d + len extra)) 0) as [G|G]; [exfalso; apply (grow_pos _ _ _ G)|].
+      cbn [bind c_cap allocs arcs store nalloc nelem add_elems]. rewrite grow_not_max. cbn [fin fst snd]. rewrite ?ec_add. four.
+      unfold Rst; ev0. apply R_push_owned; auto; try apply grow_le; try (rewrite len_app; exact H).
+      apply R_dead_alloc. exact HR.
 Qed.
